@@ -85,12 +85,24 @@ reg("C04", exc_ops=WE_OPS, nontrivial=nt_we, hook="resolve",
     weights={"CreateWe": 14, "DeleteWe": 8, "AddPrefix": 10, "RemovePrefix": 8, "MovePrefix": 8,
              "AddPage": 14},
     profile={"raw": 0.0, "long": 0.15}, title="Longest-prefix resolution")
+reg("C05", exc_ops=set(), nontrivial=nt_we, hook="wepages", obs_fail=True,
+    weights={"CreateWe": 12, "AddPrefix": 8, "MovePrefix": 5, "AddRule": 6},
+    profile={"raw": 0.0, "long": 0.3, "nlrus": 12}, title="Webentity page sets")
 reg("C06", exc_ops=WRITE_OPS | RULE_OPS, nontrivial=nt_we, hook="potential",
     weights={"AddRule": 12, "RemoveRule": 4, "AddPage": 25},
     profile={"raw": 0.0, "long": 0.15, "adversarial": 0.4}, title="Automatic creation")
+reg("C07", exc_ops=set(), nontrivial=nt_links, hook="network", obs_fail=False,
+    weights={"AddLinks": 24, "IndexBatchCrawl": 16, "CreateWe": 10, "AddPrefix": 6, "RemovePrefix": 5, "DeleteWe": 5},
+    profile={"raw": 0.0, "long": 0.1, "nlrus": 12}, title="Webentity network")
+reg("C08", exc_ops=set(), nontrivial=nt_links, hook="welinks", obs_fail=False,
+    weights={"AddLinks": 24, "IndexBatchCrawl": 16, "CreateWe": 10, "AddPrefix": 6, "RemovePrefix": 5, "DeleteWe": 5},
+    profile={"raw": 0.0, "long": 0.1, "nlrus": 12}, n=(80, 1000), steps=(14, 20), title="Per-webentity link queries")
 reg("C12", exc_ops=set(), nontrivial=nt_we,
     weights={"CreateWe": 12, "DeleteWe": 8, "Reopen": 10, "AddRule": 8, "Clear": 3},
     profile={"raw": 0.0, "long": 0.1}, title="Webentity ids")
+reg("C13", exc_ops=set(), nontrivial=nt_we, hook="hierarchy", obs_fail=False,
+    weights={"CreateWe": 14, "AddPrefix": 10, "MovePrefix": 8, "AddRule": 8, "AddPage": 25, "RemovePrefix": 4},
+    profile={"raw": 0.0, "long": 0.1, "nlrus": 14, "extend": 0.25}, title="Hierarchy / pruning flag")
 reg("C19", exc_ops=set(), nontrivial=nt_long, hook="metrics",
     profile={"long": 0.9, "raw": 0.3}, title="Storage accounting")
 
@@ -304,4 +316,7 @@ def replay(pid, path, work):
     if not viol:
         print("replay: no violation of %s on the current tree (all verdicts: %s)" % (body["property"], val["verdicts"]))
     return 1 if viol else 0
+reg("C20", exc_ops=set(), nontrivial=nt_links, hook="toplinked", obs_fail=False,
+    weights={"AddLinks": 26, "IndexBatchCrawl": 16, "CreateWe": 8, "AddPrefix": 5},
+    profile={"raw": 0.0, "long": 0.1, "nlrus": 12}, n=(80, 1000), steps=(14, 20), title="Most-linked pages")
 NOT_YET = {}
